@@ -51,7 +51,7 @@ LEAF_MENU = [
     ('LAYERING_PRMS.gmm_kwargs.mode', ['prob']),
     ('LAYERING_PRMS.gmm_kwargs.min_prob', [0.5]),
     ('LAYERING_PRMS.gmm_kwargs.delta_mul_gain', [0.5, 1.0]),
-    ('LAYERING_PRMS.gmm_kwargs.rescale_0_to_x', [None, 1, 99.5]),
+    ('LAYERING_PRMS.gmm_kwargs.rescale_0_to_x', [None, 1, 99.5, 0.001]),     # (0.001: every AIC/BIC score is negative)
 ]
 
 # coupled leaves that only make sense together
